@@ -8,6 +8,7 @@ import BufrModel.Drv.State
 import BufrModel.Drv.BitsOp
 import BufrModel.Drv.PathOp
 import BufrModel.Drv.CoderOp
+import BufrModel.Drv.ColParseOp
 import BufrModel.Drv.ScriptOp
 import BufrModel.Drv.SectionsOp
 import BufrModel.Drv.SubsetOp
@@ -53,6 +54,7 @@ def statefulOps : List (String × (DrvState → Json → J (DrvState × Json))) 
   ("fix-ncep", TD.opFixNcep) ::
   ("build-src", TD.opBuildSrc) ::
   ("dec-data-flat", opDecDataFlat) ::
+  ("col-parse", opColParse) ::
   []
 
 def dispatch (st : DrvState) (j : Json) : J (DrvState × Json) := do
